@@ -1,0 +1,17 @@
+//go:build verif
+
+// Verification hook for property C07 (add-only): the names of the registered operators.
+
+package operators
+
+import "sort"
+
+// VerifC07OperatorNames returns every key of the operator registry.
+func VerifC07OperatorNames() []string {
+	names := make([]string, 0, len(operators))
+	for k := range operators {
+		names = append(names, k)
+	}
+	sort.Strings(names)
+	return names
+}
